@@ -159,6 +159,7 @@ def run(tier, seed, replay=None):
     r.cov["trusted_base"] = ["coqc 8.16.1 kernel + vm_compute", "props/c03.py generator/renderer",
                              "harness c03.rs (key encoding, handle recovery) and its independent reference greedy"]
     r.proof_phase(THEOREMS)
+    r.tables_phase("Sched")
     if replay:
         d = json.load(open(replay))
         small = [d["replay"]["case"]] if "case" in d.get("replay", {}) else []
